@@ -14,3 +14,13 @@ package shared
 //@   modifies fields(ctx)
 //@   ensures ctx.Step == old(ctx.Step)
 //@   ensures result1 == nil ==> ctx.From.UnixNano() <= old(ctx.From.UnixNano()) && ctx.To.UnixNano() >= old(ctx.To.UnixNano())
+
+// The row readers run in goroutines without a recover: an index out of range
+// here ends the process.
+//@ func (*ClickhouseGetterPlanner).Scan [C12]
+//@   loop 1:
+//@     invariant 0 <= i && i < len(entries) && len(entries) == 100
+
+//@ func (*ClickhouseGetterPlanner).ScanMatrix [C12]
+//@   loop 1:
+//@     invariant 0 <= i && i < len(entries) && len(entries) == 100
